@@ -75,6 +75,7 @@ def handleHol (toks : List String) : String :=
 def kindSpawned : String → Option Bool
   | "tcp" | "tcptls" | "starttls" => some Gen.socketAcceptSpawned
   | "udp" => some Gen.packetAcceptSpawned
+  | "dns" => some true   -- miekg/dns serves every datagram on its own goroutine
   | "ws" | "wss" => some true
   | _ => none
 
